@@ -343,7 +343,10 @@ where
 	}
 }
 
-impl<'a, L> IntoIterator for &'a mut RetryingLockCollection<L>
+// Mutable access to the child is only handed out for owned locks: with lock
+// references as members it could be used to list a lock a second time after
+// the duplicate check has already been done.
+impl<'a, L: OwnedLockable> IntoIterator for &'a mut RetryingLockCollection<L>
 where
 	&'a mut L: IntoIterator,
 {
@@ -376,7 +379,7 @@ impl<T: ?Sized, L: AsRef<T>> AsRef<T> for RetryingLockCollection<L> {
 	}
 }
 
-impl<T: ?Sized, L: AsMut<T>> AsMut<T> for RetryingLockCollection<L> {
+impl<T: ?Sized, L: OwnedLockable + AsMut<T>> AsMut<T> for RetryingLockCollection<L> {
 	fn as_mut(&mut self) -> &mut T {
 		self.data.as_mut()
 	}
@@ -486,27 +489,6 @@ impl<L> RetryingLockCollection<L> {
 		&self.data
 	}
 
-	/// Gets a mutable reference to the underlying collection.
-	///
-	/// # Examples
-	///
-	/// ```
-	/// use happylock::{Mutex, ThreadKey};
-	/// use happylock::collection::RetryingLockCollection;
-	///
-	/// let data = (Mutex::new(42), Mutex::new(""));
-	/// let mut lock = RetryingLockCollection::new(data);
-	///
-	/// let key = ThreadKey::get().unwrap();
-	/// let mut inner = lock.child_mut();
-	/// let guard = inner.0.get_mut();
-	/// assert_eq!(*guard, 42);
-	/// ```
-	#[must_use]
-	pub fn child_mut(&mut self) -> &mut L {
-		&mut self.data
-	}
-
 	/// Gets the underlying collection, consuming this collection.
 	///
 	/// # Examples
@@ -526,6 +508,29 @@ impl<L> RetryingLockCollection<L> {
 	#[must_use]
 	pub fn into_child(self) -> L {
 		self.data
+	}
+}
+
+impl<L: OwnedLockable> RetryingLockCollection<L> {
+	/// Gets a mutable reference to the underlying collection.
+	///
+	/// # Examples
+	///
+	/// ```
+	/// use happylock::{Mutex, ThreadKey};
+	/// use happylock::collection::RetryingLockCollection;
+	///
+	/// let data = (Mutex::new(42), Mutex::new(""));
+	/// let mut lock = RetryingLockCollection::new(data);
+	///
+	/// let key = ThreadKey::get().unwrap();
+	/// let mut inner = lock.child_mut();
+	/// let guard = inner.0.get_mut();
+	/// assert_eq!(*guard, 42);
+	/// ```
+	#[must_use]
+	pub fn child_mut(&mut self) -> &mut L {
+		&mut self.data
 	}
 }
 
@@ -849,7 +854,7 @@ where
 	}
 }
 
-impl<'a, L: 'a> RetryingLockCollection<L>
+impl<'a, L: OwnedLockable + 'a> RetryingLockCollection<L>
 where
 	&'a mut L: IntoIterator,
 {
